@@ -17,6 +17,34 @@ def window_state(v, n, buf='q_vals', nparam='window_len'):
     return {buf: [Form({'q%d' % j: 1.0}) for j in range(n)], nparam: n}
 
 
+def window_names(F, v):
+    """(queue, parameter): the queue the inner view's output is pushed onto and the usize parameter that bounds it, found by
+    role (not by the names `q_vals` / `window_len`)."""
+    from .e_window import flow
+    try:
+        fl = flow(F, v)
+    except Exception:
+        return 'q_vals', 'window_len'
+    q = None
+    for q_, info in fl.queues.items():
+        if info.get('V') is not None and info['V'][0] == 'child':
+            q = q_
+    if q is None:
+        q = (sorted(fl.queues) or ['q_vals'])[0]
+    par = None
+    for p_ in fl.B.int_params:
+        try:
+            ok, _ = fl.window_exact(q, p_)
+        except Exception:
+            ok = False
+        if ok:
+            par = p_
+            break
+    if par is None:
+        par = (fl.B.int_params or ['window_len'])[0]
+    return q, par
+
+
 def find_folds(t):
     return [x for x in subterms(t) if x[0] == 'fold']
 
@@ -62,10 +90,9 @@ def net_rules(F, R, tier):
         R.violation('NET', 'NoiseEliminationTechnology', 'not found')
         return
     m = model(F, v)
-    out_t = m.up_fields.get('out')
-    if out_t is None:
-        outs = [c for c in m.touched if c.endswith('out')]
-        out_t = m.up_fields.get(outs[0]) if outs else None
+    QN, PN = window_names(F, v)
+    outs = m.output_cells()
+    out_t = m.up_fields.get(outs[0]) if outs else None
     if out_t is None:
         R.violation('NET', 'NET:out', 'no output cell', v.file)
         return
@@ -79,7 +106,7 @@ def net_rules(F, R, tier):
         R.violation('NET-P1', 'NET:shape', 'output is not a pair-sum divided by a pair count', v.file)
         return
     num_t, den_t = ratio[2]
-    outcell = 'out' if 'out' in m.up_fields else [c for c in m.touched if c.endswith('out')][0]
+    outcell = outs[0]
     reported_identity(m, outcell, ratio, {ratio}, R, 'NET-P0', 'NoiseEliminationTechnology', v.file)
     nmax = 9 if tier == 'quick' else 24
     ok1 = ok2 = ok3 = True
@@ -89,7 +116,7 @@ def net_rules(F, R, tier):
     # the innermost accumulation: fold whose next contains comparisons of buffer-derived values
     for n in range(2, nmax + 1):
         # entry state: window already holds n values after this update -> evaluate exit terms with entry len n-1 (not full) or n (full, N=n)
-        st = {'q_vals': [Form({'q%d' % j: 1.0}) for j in range(n)], 'window_len': n}
+        st = {QN: [Form({'q%d' % j: 1.0}) for j in range(n)], PN: n}
         ev = LinEval(st, loops)
         ev.deliver = True
         # after the update the window holds: pop front, push new (u). Atoms: q1..q_{n-1}, u
@@ -225,9 +252,14 @@ def cog_rules(F, R, tier):
         R.violation('COG', 'CenterOfGravity', 'not found')
         return
     m = model(F, v)
-    out_t = m.up_fields.get('out')
+    QN, PN = window_names(F, v)
+    cog_out = (m.output_cells() or ['out'])[0]
+    out_t = m.up_fields.get(cog_out)
     ok = False
     detail = 'output is not −Σ k·x / Σ x + (n+1)/2 with a zero-denominator guard'
+    if out_t is None:
+        R.ob('COG-W', 'CenterOfGravity', False, 'no output cell written by update()', v.file)
+        return
     ratio = None
     for x in subterms(out_t):
         if x[0] == 'op' and x[1] == 'div' and any(y[0] == 'fold' for y in subterms(x[2][0])) and any(y[0] == 'fold' for y in subterms(x[2][1])):
@@ -245,7 +277,7 @@ def cog_rules(F, R, tier):
     why = ''
     configs = [(n, n) for n in range(1, nmax + 1)] + [(n - 1, n + 2) for n in range(1, min(nmax, 8) + 1)]
     for (entry_len, N) in configs:
-        st = {'q_vals': [Form({'q%d' % j: 1.0}) for j in range(entry_len)], 'window_len': N}
+        st = {QN: [Form({'q%d' % j: 1.0}) for j in range(entry_len)], PN: N}
         ev = LinEval(st, m.up_vg.loops)
         try:
             num = ev.ev(num_t)
@@ -276,7 +308,7 @@ def cog_rules(F, R, tier):
     # the constant term must use the number of values currently in the window
     okn = True
     for (entry_len, N) in configs[:6] + configs[-4:]:
-        st = {'q_vals': [Form({'q%d' % j: 1.0}) for j in range(entry_len)], 'window_len': N}
+        st = {QN: [Form({'q%d' % j: 1.0}) for j in range(entry_len)], PN: N}
         ev = LinEval(st, m.up_vg.loops)
         n_now = entry_len if entry_len >= N else entry_len + 1
         for x in subterms(out_t):
@@ -291,7 +323,7 @@ def cog_rules(F, R, tier):
     # (5) the output is recomputed on every delivered value (no data-dependent hold)
     from .e_window import flow
     fl = flow(F, v)
-    holds = [h for h in fl.holds('out') if h[0] == 'data']
+    holds = [h for h in fl.holds(cog_out) if h[0] == 'data']
     R.ob('COG-H', 'CenterOfGravity', not holds, 'the output is recomputed on every delivered value' if not holds else
          'the previous output is kept under a data-dependent condition %s' % holds[0][1][:2], v.file)
     # offset (n+1)/2 and guard
@@ -306,7 +338,7 @@ def cog_rules(F, R, tier):
                     okc = True
                     full_exprs.add(x)
     if full_exprs:
-        reported_identity(m, 'out', ratio, full_exprs, R, 'COG-O', 'CenterOfGravity', v.file)
+        reported_identity(m, cog_out, ratio, full_exprs, R, 'COG-O', 'CenterOfGravity', v.file)
     else:
         R.ob('COG-O', 'CenterOfGravity', False, 'no expression ratio + (n+1)/2 found', v.file)
     R.ob('COG-C', 'CenterOfGravity', okc, 'constant term is (n+1)/2' if okc else 'constant term is not (n+1)/2', v.file)
@@ -333,6 +365,7 @@ def cti_rules(F, R):
         R.violation('CTI', 'CorrelationTrendIndicator', 'not found')
         return
     m = model(F, v)
+    QN, PN = window_names(F, v)
     ret = m.last_ret
     folds = {}
     for x in subterms(ret):
@@ -350,7 +383,7 @@ def cti_rules(F, R):
         cnt = op('from_int', idx)
         info = m.last_vg.loops.get(L, {})
         it = info.get('iter')
-        whole = it is not None and it[0] == 'enumerate' and it[1][0] == 'iter' and it[1][1] == ('in', 'q_vals') or (it is not None and it == ('enumerate', ('iter', ('in', 'q_vals'))))
+        whole = it is not None and it[0] == 'enumerate' and it[1][0] == 'iter' and it[1][1] == ('in', QN)
         val = None
         for y in subterms(e):
             if y[0] == 'get' and y[2] == idx:
@@ -373,7 +406,7 @@ def cti_rules(F, R):
     if not okr:
         return
     S = {k: f for k, (f, _) in roles.items()}
-    n = op('from_int', ('in', 'window_len'))
+    n = op('from_int', ('in', PN))
     vx = op('sub', op('mul', n, S['sxx']), op('powi', S['sx'], lit(2, 'i')))
     vy = op('sub', op('mul', n, S['syy']), op('powi', S['sy'], lit(2, 'i')))
     cov = op('sub', op('mul', n, S['sxy']), op('mul', S['sx'], S['sy']))
